@@ -841,6 +841,17 @@ Proof.
     subst m'; reflexivity.
 Qed.
 
+(** at most one message is ever in flight on a link (so a standard-mode send never has to wait for buffer space
+    and the relative order of messages on rank 0's self-channel never matters), and none while the worker is
+    running a job: the re-posted wildcard receive (cpp:38) writes into current_job_, which the running job still
+    uses -- it is never overwritten. *)
+Theorem link_capacity : forall c s w, reachable c s -> In w (pool c) ->
+  length (chan s w) <= 1 /\ (forall j, wst s w = Work j -> chan s w = []).
+Proof.
+  intros c s w R Hp. pose proof (inv_links c s (inv_reachable c s R) w Hp) as L.
+  shapes s w L; rewrite Ec; simpl; split; try lia; intros j' Hj; congruence.
+Qed.
+
 (** the model never leaves the envelope in which its MPI state is exact *)
 Theorem no_err : forall c s, reachable c s -> err s = false.
 Proof. intros c s R. apply (inv_err c s (inv_reachable c s R)). Qed.
@@ -1428,3 +1439,89 @@ Proof. reflexivity. Qed.
 Example ex_refuse_steal : forall s, run ex_cfg (init ex_cfg [2; 0; 3; 1]) (firstn 6 ex_trace) = Some s ->
   step ex_cfg s (ERecv 0 MPend) = None.
 Proof. intros s H. vm_compute in H. inversion H. reflexivity. Qed.
+
+(** * The enumeration used for exhaustive exploration is complete *)
+
+Lemma pairs_eqb_eq : forall a b, pairs_eqb a b = true -> a = b.
+Proof.
+  induction a as [|[x1 x2] a IH]; destruct b as [|[y1 y2] b]; simpl; intros H; try discriminate; [reflexivity|].
+  apply andb_true_iff in H. destruct H as [H H3]. apply andb_true_iff in H. destruct H as [H1 H2].
+  apply Nat.eqb_eq in H1. apply Nat.eqb_eq in H2. rewrite (IH b H3). subst. reflexivity.
+Qed.
+
+Lemma sublists_nil : forall (A : Type) (l : list A), In [] (sublists l).
+Proof.
+  intros A l. induction l as [|x l IH]; simpl; [left; reflexivity|]. apply in_or_app. right. exact IH.
+Qed.
+
+Lemma see_reportable : forall w s s', see w s = Some s' -> reportable s w = true.
+Proof.
+  intros w s s' H. unfold see in H. unfold reportable. destruct (outst s w); [|discriminate].
+  destruct (pend_match s w); [reflexivity|discriminate].
+Qed.
+
+Lemma see_reportable_other : forall w s s' x, see w s = Some s' -> x <> w -> reportable s' x = reportable s x.
+Proof.
+  intros w s s' x H Hx. unfold see in H. destruct (outst s w); [|discriminate].
+  destruct (pend_match s w) as [l|]; [|discriminate]. injection H as H. subst s'.
+  unfold reportable, pend_match, wildcard_posted. simpl. upds. reflexivity.
+Qed.
+
+Lemma filter_ext_in' : forall (f g : nat -> bool) l, (forall x, In x l -> f x = g x) -> filter f l = filter g l.
+Proof.
+  intros f g l. induction l as [|x l IH]; intros H; simpl; [reflexivity|].
+  rewrite (H x (or_introl eq_refl)). rewrite IH; [reflexivity|]. intros y Hy. apply H. right. exact Hy.
+Qed.
+
+Lemma check_loop_sublist : forall ws seen s s1, NoDup ws -> check_loop ws seen s = Some s1 ->
+  In seen (sublists (filter (reportable s) ws)).
+Proof.
+  induction ws as [|w ws IH]; intros seen s s1 Hn H; simpl in H.
+  - destruct seen; [left; reflexivity|discriminate].
+  - inversion Hn as [|y l Hw Hn']; subst.
+    destruct seen as [|w' seen']; [apply sublists_nil|].
+    destruct (Nat.eqb_spec w w') as [E|E].
+    + subst w'. destruct (see w s) as [s'|] eqn:Hs; [|discriminate].
+      simpl. rewrite (see_reportable w s s' Hs). simpl. apply in_or_app. left. apply in_map.
+      unfold wid in *. rewrite (filter_ext_in' (reportable s) (reportable s') ws).
+      * apply (IH seen' s' s1 Hn' H).
+      * intros x Hx. symmetry. apply (see_reportable_other w s s' x Hs). intros Ex. subst. contradiction.
+    + pose proof (IH (w' :: seen') s s1 Hn' H) as Hi. simpl.
+      destruct (reportable s w); [simpl; apply in_or_app; right; exact Hi|exact Hi].
+Qed.
+
+(** every enabled non-stuttering event of the current round is in [candidates]: the exploration of the
+    extracted model that the check performs for small configurations visits ALL interleavings *)
+Theorem candidates_complete : forall c s e s', step c s e = Some s' -> stutter e = false -> is_newround e = false ->
+  In e (candidates c s).
+Proof.
+  intros c s e s' H Hst Hnr. unfold candidates. apply filter_In. split; [|unfold enabled; rewrite H; reflexivity].
+  destruct e as [l|seen fins|w m|w j|r|r|js]; simpl in H; try discriminate.
+  - destruct (exited s 0); [discriminate|]. destruct l as [|p l]; [discriminate|].
+    destruct (pairs_eqb (p :: l) (order_pairs s)) eqn:Hp; [|discriminate]. apply pairs_eqb_eq in Hp.
+    apply in_or_app. left. rewrite <- Hp. left. reflexivity.
+  - destruct (exited s 0); [discriminate|].
+    destruct (match seen, fins with [], [] => true | _, _ => false end); [discriminate|].
+    destruct (check_loop (pool c) seen s) as [s1|] eqn:Hc; [|discriminate].
+    destruct (list_eqb fins (finish_targets c s1)) eqn:Hf; [|discriminate]. apply list_eqb_eq in Hf. subst fins.
+    apply in_or_app. right. apply in_or_app. left. apply in_flat_map. exists seen. split.
+    + apply (check_loop_sublist (pool c) seen s s1 (pool_NoDup c) Hc).
+    + rewrite Hc. left. reflexivity.
+  - destruct (is_worker c w && negb (exited s w)) eqn:Hw; [|discriminate].
+    apply andb_true_iff in Hw. destruct Hw as [Hw _]. apply in_pool in Hw.
+    destruct (wst s w) eqn:Hs; try discriminate.
+    destruct (wild_match s w) as [[m' l]|] eqn:Hm; [|discriminate].
+    destruct (msg_eqb m m') eqn:Hmm; [|discriminate]. apply msg_eqb_eq in Hmm. subst m'.
+    apply in_or_app. right. apply in_or_app. right. apply in_or_app. left. apply in_flat_map. exists w. split; [exact Hw|].
+    rewrite Hm. apply in_or_app. left. left. reflexivity.
+  - destruct (is_worker c w && negb (exited s w)) eqn:Hw; [|discriminate].
+    apply andb_true_iff in Hw. destruct Hw as [Hw _]. apply in_pool in Hw.
+    destruct (wst s w) as [|j'|] eqn:Hs; try discriminate.
+    destruct (Nat.eqb_spec j j') as [E|E]; [|discriminate]. subst j'.
+    apply in_or_app. right. apply in_or_app. right. apply in_or_app. left. apply in_flat_map. exists w. split; [exact Hw|].
+    rewrite Hs. apply in_or_app. right. left. reflexivity.
+  - destruct ((r <? np c) && negb (exited s r) && loop_done c s r) eqn:Hc; [|discriminate].
+    apply andb_true_iff in Hc. destruct Hc as [Hc _]. apply andb_true_iff in Hc. destruct Hc as [Hr _].
+    apply Nat.ltb_lt in Hr.
+    apply in_or_app. right. apply in_or_app. right. apply in_or_app. right. apply in_map. apply in_ranks. exact Hr.
+Qed.
